@@ -230,3 +230,19 @@ _p('C09', ['r_par', 'r_nondet'],
    not_decided='rayon\'s own correctness (indexed collect preserves order: documented, trusted); behaviour under concrete schedules '
                'and thread counts (not executed)',
    needs_parallel=True)
+
+_p('C11', ['r_offsets', 'r_sorted', 'r_gates', 'r_builder'],
+   'Code-offset map: offsets are recorded before the instruction / end / else is encoded; synthetic (default) locations are '
+   'filtered and real ones rebased by the function start; everything ModuleFunctions::emit publishes in CodeTransform is a '
+   'sum/difference of encoder measurements (no hand-computed LEB lengths, no integer literals), the tables that are binary '
+   'searched are sorted on the searched key, apply_code_transform is gated by preserve_code_transform, and the builder attaches '
+   'the default location to everything it creates.',
+   not_decided='numeric equality of a concrete offset with the byte position in a concrete binary (follows from the provenance '
+               'discipline; not executed)')
+_p('C10', ['r_offsets', 'r_sorted'],
+   'A narrow, structural claim: every operator\'s input offset is recorded unconditionally at parse; output offsets are measured '
+   'and rebased by code_section_start = start of the code section contents (measured, no constant); unconvertible addresses are '
+   'tombstoned (DEAD_CODE) and 0/DEAD_CODE pass through; binary searches run over tables sorted on the searched key; an unsigned '
+   'file index that is tested against 0 is not decremented where it can still be 0 (R-ZERODEC).',
+   not_decided='row-by-row address exactness, range semantics and which search preference (inclusive/exclusive function end) is '
+               'right for which attribute - DWARF semantics over concrete layouts, outside static reach (see DESIGN.md D10)')
